@@ -25,6 +25,13 @@ pub struct Outcome {
     pub entropy_calls: u64,
     #[serde(skip)]
     pub write_sites: Vec<String>,
+    /// C17: (event number, first write, last write, kind) of every event that wrote
+    #[serde(skip)]
+    pub event_writes: Vec<(u64, u64, u64, String)>,
+    #[serde(skip)]
+    pub snapshot: Option<String>,
+    #[serde(skip)]
+    pub pair_answer: Option<(bool, String)>,
 }
 
 static RUN_COUNTER: AtomicU64 = AtomicU64::new(0);
@@ -34,6 +41,68 @@ static WRITES: AtomicU64 = AtomicU64::new(0);
 static HOOK_INSTALLED: AtomicBool = AtomicBool::new(false);
 thread_local! {
     static WRITE_SITES: std::cell::RefCell<Vec<&'static str>> = std::cell::RefCell::new(Vec::new());
+}
+
+/// C17: park the thread that is about to issue the PAUSE_AT-th write and start the paired
+/// operation on a second thread (0 = disarmed)
+static PAUSE_AT: AtomicU64 = AtomicU64::new(0);
+pub struct PairJob {
+    pub io: jsonrpc_core::IoHandler,
+    pub request: String,
+    pub seed: u64,
+}
+pub enum PairState {
+    /// the paired operation finished while the first one was parked: it ran inside it
+    RanInside(String),
+    /// it did not finish within the grace period: it waits for something the first one holds
+    Blocked(std::sync::mpsc::Receiver<String>),
+}
+static PAIR_JOB: std::sync::Mutex<Option<PairJob>> = std::sync::Mutex::new(None);
+static PAIR_STATE: std::sync::Mutex<Option<PairState>> = std::sync::Mutex::new(None);
+
+pub fn spawn_pair(job: PairJob) -> std::sync::mpsc::Receiver<String> {
+    let (tx, rx) = std::sync::mpsc::channel();
+    std::thread::Builder::new()
+        .stack_size(16 << 20)
+        .spawn(move || {
+            entropy::install(job.seed);
+            let r = std::panic::catch_unwind(std::panic::AssertUnwindSafe(|| {
+                job.io.handle_request_sync(&job.request).unwrap_or_default()
+            }));
+            entropy::uninstall();
+            let _ = tx.send(match r {
+                Ok(s) => s,
+                Err(_) => "UNWOUND".to_string(),
+            });
+        })
+        .expect("spawn pair thread");
+    rx
+}
+
+pub fn arm_pause(at: u64, job: PairJob) {
+    *PAIR_JOB.lock().unwrap_or_else(|e| e.into_inner()) = Some(job);
+    *PAIR_STATE.lock().unwrap_or_else(|e| e.into_inner()) = None;
+    PAUSE_AT.store(at, Ordering::SeqCst);
+}
+
+/// After the first operation returned: (did the second run inside the first, its answer)
+pub fn join_pair() -> Result<(bool, String), String> {
+    PAUSE_AT.store(0, Ordering::SeqCst);
+    if PAIR_JOB.lock().unwrap_or_else(|e| e.into_inner()).take().is_some() {
+        return Err("the pause boundary was not reached".into());
+    }
+    match PAIR_STATE.lock().unwrap_or_else(|e| e.into_inner()).take() {
+        Some(PairState::RanInside(r)) => Ok((true, r)),
+        Some(PairState::Blocked(rx)) => match rx.recv_timeout(std::time::Duration::from_secs(20)) {
+            Ok(r) => Ok((false, r)),
+            Err(_) => Err("DEADLOCK".into()),
+        },
+        None => Err("the pause boundary was not reached".into()),
+    }
+}
+
+pub fn writes_now() -> u64 {
+    WRITES.load(Ordering::SeqCst)
 }
 
 pub fn disarm_crash() {
@@ -51,6 +120,21 @@ fn install_write_hook() {
             let at = CRASH_AT.load(Ordering::SeqCst);
             if at != 0 && n == at {
                 panic!("VERIF-CRASH {}", site);
+            }
+            let pause = PAUSE_AT.load(Ordering::SeqCst);
+            if pause != 0 && n == pause {
+                let job = PAIR_JOB.lock().unwrap_or_else(|e| e.into_inner()).take();
+                if let Some(job) = job {
+                    PAUSE_AT.store(0, Ordering::SeqCst);
+                    let rx = spawn_pair(job);
+                    // parked here: the second operation either finishes (it ran inside this
+                    // one) or it does not (it waits for a lock this one holds)
+                    let st = match rx.recv_timeout(std::time::Duration::from_millis(250)) {
+                        Ok(r) => PairState::RanInside(r),
+                        Err(_) => PairState::Blocked(rx),
+                    };
+                    *PAIR_STATE.lock().unwrap_or_else(|e| e.into_inner()) = Some(st);
+                }
             }
         }
     })));
@@ -122,6 +206,134 @@ pub fn on_fresh_thread<R: Send + 'static>(seed: u64, f: impl FnOnce() -> R + Sen
 }
 
 pub fn execute(plan: &Plan, verbose: bool) -> Outcome {
+    let has = |k: &str| plan.flags.iter().any(|f| f.starts_with(k));
+    if has("pair_slot=") && !has("pair_mode=") {
+        return execute_pair(plan, verbose);
+    }
+    execute_one(plan, verbose)
+}
+
+fn flag_u64(plan: &Plan, k: &str) -> Option<u64> {
+    plan.flags.iter().find_map(|f| f.strip_prefix(k).and_then(|v| v.parse::<u64>().ok()))
+}
+
+pub const PAIR_OPS: [&str; 8] = [
+    "set_scripts(all,[lock0@0])",
+    "set_scripts(partial,[lock1@initial/3])",
+    "set_scripts(delete,[lock0])",
+    "set_scripts(all,[])",
+    "get_scripts",
+    "get_cells_capacity(lock0)",
+    "get_cells(lock0)",
+    "set_scripts(partial,[lock0@initial/2+1,lock1@0])",
+];
+
+/// C17: one case = (history, write boundary K of the operation A that issues it, operation B).
+/// Three executions of the same deterministic history: B right before A, B right after A, and
+/// B started on a second thread while A is parked before write K. The outcome of the third
+/// must equal one of the first two, B's answer must be one of its two serial answers, and
+/// both threads must finish.
+pub fn execute_pair(plan: &Plan, verbose: bool) -> Outcome {
+    let slot = flag_u64(plan, "pair_slot=").unwrap_or(0);
+    let op = flag_u64(plan, "pair_op=").unwrap_or(0) % 8;
+    let mut bp = plan.clone();
+    bp.flags.retain(|f| !f.starts_with("pair_"));
+    bp.flags.push("record_writes".into());
+    let mut base = execute_one(&bp, false);
+    base.violations.clear();
+    let mut ks: Vec<(u64, u64, String)> = Vec::new();
+    for (e, w0, w1, kind) in base.event_writes.iter() {
+        if kind.starts_with("recv.") || kind.starts_with("timer.") || kind.starts_with("user.") {
+            for k in *w0..=*w1 {
+                ks.push((k, *e, kind.clone()));
+            }
+        }
+    }
+    if ks.is_empty() || base.harness_error.is_some() {
+        base.stats.insert("probe.c17.history_without_writes".into(), 1);
+        return base;
+    }
+    let (k, e, kind) = ks[((slot.wrapping_mul(7919) + 13) % ks.len() as u64) as usize].clone();
+    let mut outs = Vec::new();
+    for mode in ["before", "after", "during"] {
+        let mut p = plan.clone();
+        p.flags.retain(|f| !f.starts_with("pair_"));
+        p.flags.push(format!("pair_event={}", e));
+        p.flags.push(format!("pair_write={}", k));
+        p.flags.push(format!("pair_mode={}", mode));
+        p.flags.push(format!("pair_op={}", op));
+        outs.push(execute_one(&p, verbose && mode == "during"));
+    }
+    let during = outs.pop().unwrap();
+    let after = outs.pop().unwrap();
+    let before = outs.pop().unwrap();
+    let mut out = during;
+    let own: Vec<Violation> = out.violations.iter().filter(|v| v.property == "C17").cloned().collect();
+    out.violations = own;
+    for o in [&before, &after] {
+        if out.harness_error.is_none() {
+            out.harness_error = o.harness_error.clone();
+        }
+    }
+    let mut stats: BTreeMap<String, u64> = BTreeMap::new();
+    stats.insert("probe.c17.cases".into(), 1);
+    stats.insert(format!("c17.A.{}", kind), 1);
+    stats.insert(format!("c17.B.{}", PAIR_OPS[op as usize]), 1);
+    let what = format!(
+        "A = {} (event {}, parked before write {}), B = {}",
+        kind, e, k, PAIR_OPS[op as usize]
+    );
+    if out.harness_error.is_none() && out.violations.is_empty() {
+        match (&before.snapshot, &after.snapshot, &out.snapshot) {
+            (Some(b), Some(a), Some(d)) => {
+                if b != a {
+                    stats.insert("probe.c17.order_matters".into(), 1);
+                }
+                if d != a && d != b {
+                    out.violations.push(Violation {
+                        property: "C17".into(),
+                        clause: "outcome_matches_no_serial_order".into(),
+                        detail: format!("{}: concurrent outcome {} ; B;A gives {} ; A;B gives {}", what, d, b, a),
+                        at_event: e,
+                        at_time: out.vtime,
+                    });
+                }
+            }
+            _ => {
+                // A ended the process in one of the executions (documented abort): nothing to compare
+                stats.insert("probe.c17.no_snapshot".into(), 1);
+            }
+        }
+        if let (Some((_, rb)), Some((_, ra)), Some((inside, rd))) = (&before.pair_answer, &after.pair_answer, &out.pair_answer) {
+            stats.insert(if *inside { "probe.c17.ran_inside".into() } else { "probe.c17.blocked_until_A_finished".into() }, 1);
+            // A reader that runs inside A sees the state between two of A's writes. Every write is
+            // one atomic batch (one block, one script set, ...), so that state is a point in time
+            // of the index; whether a reader is torn *inside itself* would need the reader to be
+            // parked mid-iteration, which is not built. Only set_scripts answers are compared.
+            if op < 4 || op == 7 {
+                if rd != ra && rd != rb {
+                    out.violations.push(Violation {
+                        property: "C17".into(),
+                        clause: "answer_from_no_single_point_in_time".into(),
+                        detail: format!("{}: concurrent answer {} ; before A {} ; after A {}", what, rd, rb, ra),
+                        at_event: e,
+                        at_time: out.vtime,
+                    });
+                }
+            } else if rd != ra && rd != rb {
+                stats.insert("probe.c17.reader_saw_state_between_two_writes_of_A".into(), 1);
+            }
+        }
+    }
+    out.stats = stats;
+    // the three executions are functions of the plan; whether B was seen blocked is too, on
+    // the unchanged tree (B waits for A's lock), so it is part of the trace hash
+    out.trace_hash = entropy::mix(&[before.trace_hash, after.trace_hash, out.snapshot.as_ref().map(|s| crate::entropy::hash_str(s)).unwrap_or(0)]);
+    out.events = before.events + after.events + out.events;
+    out
+}
+
+pub fn execute_one(plan: &Plan, verbose: bool) -> Outcome {
     let plan = plan.clone();
     let seed = entropy::mix(&[plan.seed, 0xe17]);
     on_fresh_thread(seed, move || {
@@ -159,6 +371,9 @@ pub fn execute(plan: &Plan, verbose: bool) -> Outcome {
             trace: sim.trace.take().unwrap_or_default(),
             entropy_calls: entropy::calls(),
             write_sites: sites.iter().map(|s| s.to_string()).collect(),
+            event_writes: std::mem::take(&mut sim.event_writes),
+            snapshot: sim.snapshot.take(),
+            pair_answer: sim.pair_answer.take(),
         };
         drop(sim);
         let _ = std::fs::remove_dir_all(&dir);
